@@ -528,6 +528,7 @@ func runC03(c *hx.Ctx) {
 	x.encoderCases()
 	x.connCases()
 	x.interruptedCases()
+	x.limitParkedCases()
 	x.closeBehindSend()
 	x.loopbackQuick()
 	if c.Thorough() {
@@ -591,6 +592,8 @@ func (x *c03) replay(path string) {
 			x.gatedIntact()
 		case "closebehind":
 			x.closeBehindSend()
+		case "limitparked":
+			x.limitWhileParked(kv(f, "carrier"), kv(f, "lower") == "1")
 		case "interrupted":
 			x.interruptedPacket(kv(f, "kind"))
 		case "closeunblocks":
